@@ -177,7 +177,7 @@ def run(chk, model_ok=True):
     quick = chk.tier == "quick"
     env = e2e.env()
     peers = [e2e.Peer("v1"), e2e.Peer("v2c"), e2e.Peer("v3"), e2e.Peer("v3", auth=1, priv=1), e2e.Peer("v3", auth=2, priv=2)]
-    plan = [("raw", 500 if quick else 15000), ("sync", 400 if quick else 12000), ("async", 50 if quick else 1500)]
+    plan = [("raw", 750 if quick else 15000), ("sync", 600 if quick else 12000), ("async", 75 if quick else 1500)]
     bad = 0
     n_walks = n_exch = 0
     hist = {}
@@ -228,8 +228,8 @@ def run(chk, model_ok=True):
             if len(samples) < 5 and want:
                 samples.append({**detail, "yields": [o for o, _ in want][:6]})
     st = streams.Streams(chk, model_ok)
-    st.add("walk", gens.lines_walk(rng, 3000 if quick else 60000))
-    st.add("cmp", gens.lines_cmp(rng, 3000 if quick else 60000))
+    st.add("walk", gens.lines_walk(rng, 4500 if quick else 60000))
+    st.add("cmp", gens.lines_cmp(rng, 4500 if quick else 60000))
     st.run()
     st.diff("C05 walk conversion / OID order")
     st.coverage(
